@@ -202,6 +202,9 @@ def run(ctx):
     if n_sel < 1:
         raise AnalysisError("no reader-union selection site found")
 
+    ctx.rule("C08.R7", "the reader schema is dropped (set to None) only at the named top-level sites and under their conditions; below the top level it is only resolved (match_schemas) or passed on", floor=4)
+    reader_drop_discipline(ctx, a, "C08.R7")
+
 
 def _past_chain(mt, out):
     """the evaluation left the literal if/elif chain (reached the name-table lookup / final return)"""
@@ -253,3 +256,62 @@ def _has_exactness(test, cand):
             if any(ctxt in s for s in sides) and any("w_" in s or "writer" in s or "idx_schema" in s for s in sides):
                 return True
     return False
+
+
+# functions allowed to replace the caller's reader schema by None, and the condition under which they may
+# (confirmed by reading; every other store of None to a reader-schema variable on the read path is reported)
+READER_DROP_SITES = {
+    "_read_py:schemaless_reader": "whole-schema equality of the two parameters: `writer_schema == reader_schema` on the bare parameters",
+    "_read_py:file_reader.__init__": "no reader schema given (falsy parameter)",
+    "_read_py:reader.__init__": "JSON decoding: the decoder is configured with the schema and resolves on its own",
+}
+
+
+def reader_drop_discipline(ctx, a, rule):
+    """The reader schema is what makes resolution happen.  It may become None only at the named sites; everywhere
+    else it is either passed on unchanged, replaced by match_schemas(writer, reader, ..) or by its parsed form."""
+    from sa.cfg import cfg_of
+    from .common import true_facts, eq_texts
+
+    p = a.p
+    rmod = p.module("_read_py")
+    sites = 0
+    for f in sorted(rmod.all_funcs, key=lambda x: x.id):
+        params = f.params if hasattr(f, "params") else f.pos_params
+        pnames = [x for x in (params if isinstance(params, (list, tuple)) else list(params))]
+        if "reader_schema" not in pnames:
+            continue
+        cfg = None
+        for n in walk_local(f.node):
+            if not isinstance(n, ast.Assign):
+                continue
+            for t in n.targets:
+                tt = norm(t)
+                if tt not in ("reader_schema", "self.reader_schema"):
+                    continue
+                sites += 1
+                v = n.value
+                inst = f"{f.qualname}: `{norm(n)[:70]}`"
+                if isinstance(v, ast.Call) and isinstance(v.func, ast.Name) and v.func.id in ("match_schemas", "parse_schema") and any(norm(x) == "reader_schema" for x in v.args):
+                    ctx.holds(rule, inst + " keeps the reader schema (resolved / parsed form)", f.where(n))
+                    continue
+                if isinstance(v, ast.Name) and v.id == "reader_schema":
+                    ctx.holds(rule, inst + " stores the parameter", f.where(n))
+                    continue
+                if isinstance(v, ast.Constant) and v.value is None:
+                    cfg = cfg or cfg_of(f)
+                    facts = true_facts(cfg, cfg.node_of(n))
+                    if f.id == "_read_py:schemaless_reader":
+                        rebinds = [m for m in walk_local(f.node) if isinstance(m, ast.Assign) and any(norm(x) in ("writer_schema", "reader_schema") for x in m.targets) and cfg.node_of(n) in cfg.reachable_from(cfg.node_of(m)) and m is not n]
+                        ok = bool(eq_texts("writer_schema", "reader_schema") & facts) and not rebinds
+                        ctx.check(rule, inst + " only when the two schemas given are equal as a whole", ok, f.where(n), f"{f.qualname}: reader schema dropped under {sorted(facts)}", "the reader schema is dropped under a weaker comparison than equality of the complete schemas given (e.g. ignoring the name tables of parsed schemas): schemas that differ in separately parsed parts are then read without resolution")
+                    elif f.id == "_read_py:file_reader.__init__":
+                        ctx.check(rule, inst + " only when no reader schema was given", "not reader_schema" in facts, f.where(n), f"{f.qualname}: reader schema dropped under {sorted(facts)}", "a reader schema that was given is ignored")
+                    elif f.id == "_read_py:reader.__init__":
+                        ok = any("AvroJSONDecoder" in x for x in facts)
+                        ctx.check(rule, inst + " only for JSON decoding (the decoder was configured with it)", ok, f.where(n), f"{f.qualname}: reader schema dropped under {sorted(facts)}", "the binary path loses its reader schema")
+                    else:
+                        ctx.violation(rule, inst + " is not one of the sites allowed to drop the reader schema", f.where(n), f"{f.qualname}: {norm(n)} under {sorted(true_facts(cfg, cfg.node_of(n)))[:4]}", "dropping the reader schema below the top level skips resolution for that subtree: sub-schemas that compare equal as text can still mean different types (references resolved against different name tables, aliases, defaults)")
+                    continue
+                ctx.unrecognised(rule, inst, f.where(n), "reader schema replaced by an unknown value")
+    return sites
